@@ -71,12 +71,26 @@ class HoloPyObject(Serializable):
         return dict(self._iteritems())
 
     def _iteritems(self):
-        for var in self.__init__.__code__.co_varnames[1:]:
-            if getattr(self, var, None) is not None:
-                item = getattr(self, var)
-                if isinstance(item, np.ndarray) and item.ndim == 1:
-                    item = list(item)
-                yield var, item
+        code = self.__init__.__code__
+        n_args = code.co_argcount + code.co_kwonlyargcount
+        defaults = self.__init__.__defaults__ or ()
+        default_of = dict(zip(code.co_varnames[code.co_argcount-len(defaults):
+                                               code.co_argcount], defaults))
+        for var in code.co_varnames[1:]:
+            item = getattr(self, var, None)
+            if item is None:
+                # None is only worth writing when it replaces a default
+                # that is not None; otherwise loading would silently
+                # bring that default back
+                is_arg = var in code.co_varnames[:n_args]
+                overrides_default = (
+                    is_arg and hasattr(self, var) and
+                    default_of.get(var, None) is not None)
+                if not overrides_default:
+                    continue
+            if isinstance(item, np.ndarray) and item.ndim == 1:
+                item = list(item)
+            yield var, item
 
     @classmethod
     def to_yaml(cls, dumper, data):
